@@ -89,6 +89,14 @@ def row_spans(c1: str, c2: str, c3: str, n: int) -> bool:
     return count == len(_nodes(row))
 
 
+def _pin(v, lo, hi):
+    """the concrete int equal to v (one fork per candidate value)"""
+    for c in range(lo, hi + 1):
+        if v == c:
+            return c
+    raise AssertionError("out of range")
+
+
 def onset_groups(o1: int, o2: int, o3: int, o4: int, nan_mask: int, n: int) -> bool:
     """
     pre: 1 <= n <= R.N(4)
@@ -99,7 +107,8 @@ def onset_groups(o1: int, o2: int, o3: int, o4: int, nan_mask: int, n: int) -> b
     post: _
     """
     # rows sharing an onset act as one time point: groups are maximal runs of equal onsets, n/a (NaN) rows skipped
-    raw = [o1, o2, o3, o4][:n]
+    raw = [_pin(o, 0, 3) for o in [o1, o2, o3, o4][:n]]      # the function hashes the onsets: pick them once
+    nan_mask = _pin(nan_mask, 0, 15)
     nan = float("nan")
     onsets = [nan if (nan_mask >> i) & 1 else float(raw[i]) for i in range(n)]
     got = df_util._indexed_dict_from_onsets(onsets)
